@@ -13,13 +13,29 @@ const (
 	KSlice     = "slice"     // iterable.WrapIntSlice: resettable
 	KNoReset   = "noreset"   // same elements behind a wrapper without a Reset method
 	KDisparity = "disparity" // resettable; after its last element HasNext says true until the following Next returns (0,false); exhausted from then on
+	// value-type (non-pointer) implementations: the dynamic type stored in the Iterator interface is a struct, not a pointer
+	KValFunc        = "valfunc"         // struct of closures handed over by value (func fields: the type is not comparable); resettable
+	KValFuncNoReset = "valfunc_noreset" // the same adapter without a Reset method
+	KValSlice       = "valslice"        // struct{elements []int; pos *int} by value (slice field: not comparable); resettable
+	KValCmp         = "valcmp"          // struct{*state} by value (comparable); resettable
 )
 
 // Selector ids: lt, le, first (always true), second (always false), gt. Selectors look at the value of an element only.
 var Selectors = []string{"lt", "le", "first", "second", "gt"}
 
 // Kinds lists the source kinds.
-var Kinds = []string{KSlice, KNoReset, KDisparity}
+var Kinds = []string{KSlice, KNoReset, KDisparity, KValFunc, KValFuncNoReset, KValSlice, KValCmp}
+
+// ValueKinds are the kinds whose iterator is a struct value.
+var ValueKinds = []string{KValFunc, KValFuncNoReset, KValSlice, KValCmp}
+
+// CanReset tells whether an iterator of the kind has a Reset method.
+func CanReset(kind string) bool { return kind != KNoReset && kind != KValFuncNoReset }
+
+// IsValueKind tells whether the iterator of the kind is a struct value (not a pointer).
+func IsValueKind(kind string) bool {
+	return kind == KValFunc || kind == KValFuncNoReset || kind == KValSlice || kind == KValCmp
+}
 
 // Case is two value sequences, the kind of source each is served from, a selector and a call program:
 // one letter per call, h = HasNext, n = Next, r = Reset, i = Init again on the same Mixer value with fresh
@@ -68,6 +84,9 @@ type Info struct {
 	LongInput    bool // an input of >= 500 elements
 	Sorted       bool // both inputs sorted under the selector (lt/le ascending, gt descending), both non-empty
 	Emitted      int
+	ValueKind     bool // an input is a value-type (non-pointer) iterator
+	SameValueKind bool // both inputs are value-type iterators of one and the same type
+	ResetOK       bool // a Reset succeeded
 }
 
 // element encoding: value<<21 | 1<<20 | generation<<14 | side<<13 | index, so every element of a case is unique
@@ -167,8 +186,87 @@ func (d *disparity) Reset() error {
 
 func (d *disparity) Close() error { return nil }
 
+// Value-type iterators. Nothing in iterable.Iterator asks for a pointer: an adapter struct of closures, or a small
+// struct that points at its cursor, is an iterator when handed over by value. All of them walk a slice like WrapIntSlice.
+
+// fnIter / fnIterNoReset: adapter of closures (func fields make the struct type uncomparable).
+type fnIterNoReset struct {
+	hasNext func() bool
+	next    func() (int, bool)
+	close   func() error
+}
+
+func (f fnIterNoReset) HasNext() bool     { return f.hasNext() }
+func (f fnIterNoReset) Next() (int, bool) { return f.next() }
+func (f fnIterNoReset) Close() error      { return f.close() }
+
+type fnIter struct {
+	fnIterNoReset
+	reset func() error
+}
+
+func (f fnIter) Reset() error { return f.reset() }
+
+func newFnIter(s []int) fnIter {
+	pos := 0
+	return fnIter{fnIterNoReset{
+		hasNext: func() bool { return pos < len(s) },
+		next: func() (int, bool) {
+			if pos < len(s) {
+				pos++
+				return s[pos-1], true
+			}
+			return 0, false
+		},
+		close: func() error { return nil },
+	}, func() error { pos = 0; return nil }}
+}
+
+// sliceCursor: the elements in a slice field (uncomparable struct), the position behind a pointer.
+type sliceCursor struct {
+	s   []int
+	pos *int
+}
+
+func (c sliceCursor) HasNext() bool { return *c.pos < len(c.s) }
+func (c sliceCursor) Next() (int, bool) {
+	if *c.pos < len(c.s) {
+		*c.pos++
+		return c.s[*c.pos-1], true
+	}
+	return 0, false
+}
+func (c sliceCursor) Reset() error { *c.pos = 0; return nil }
+func (c sliceCursor) Close() error { return nil }
+
+// handle: a comparable struct value around a pointer to the state.
+type handleState struct {
+	s   []int
+	pos int
+}
+type handle struct{ st *handleState }
+
+func (h handle) HasNext() bool { return h.st.pos < len(h.st.s) }
+func (h handle) Next() (int, bool) {
+	if h.st.pos < len(h.st.s) {
+		h.st.pos++
+		return h.st.s[h.st.pos-1], true
+	}
+	return 0, false
+}
+func (h handle) Reset() error { h.st.pos = 0; return nil }
+func (h handle) Close() error { return nil }
+
 func source(kind string, s []int) iterable.Iterator[int] {
 	switch kind {
+	case KValFunc:
+		return newFnIter(s)
+	case KValFuncNoReset:
+		return newFnIter(s).fnIterNoReset
+	case KValSlice:
+		return sliceCursor{s: s, pos: new(int)}
+	case KValCmp:
+		return handle{&handleState{s: s}}
 	case KSlice:
 		return iterable.WrapIntSlice(s)
 	case KNoReset:
@@ -202,7 +300,9 @@ func run(c Case, info *Info) *vstat.Violation {
 		}
 	}
 	sel := selector(c.Sel)
-	resettable := c.KA != KNoReset && c.KB != KNoReset
+	resettable := CanReset(c.KA) && CanReset(c.KB)
+	info.ValueKind = IsValueKind(c.KA) || IsValueKind(c.KB)
+	info.SameValueKind = IsValueKind(c.KA) && c.KA == c.KB
 	info.PhantomAny = c.KA == KDisparity || c.KB == KDisparity
 
 	// reference state: the current inputs and two pointers
@@ -385,6 +485,7 @@ func run(c Case, info *Info) *vstat.Violation {
 			if err != nil {
 				return vstat.V("mixer:reset-failed", "%s: Reset returned %v although both sources can be reset", where, err)
 			}
+			info.ResetOK = true
 			switch {
 			case sawEnd:
 				info.ResetAtEnd = true
@@ -567,5 +668,9 @@ func (i Info) Classes() []string {
 	add(i.SharedSlice, "both_inputs_share_one_slice")
 	add(i.Extreme, "negative_zero_or_huge_values")
 	add(i.LongInput, "input_ge_500_elements")
+	add(i.ValueKind, "value_type_iterator_input")
+	add(i.SameValueKind, "both_inputs_same_value_type")
+	add(i.SameValueKind && i.ResetOK, "both_inputs_same_value_type_and_reset_ok")
+	add(i.SameValueKind && i.ResetRefused, "both_inputs_same_value_type_and_reset_refused")
 	return c
 }
